@@ -442,6 +442,48 @@ def sec_gait(ck):
     control(ck, "control.phase.wrap_never_happens", pre, conj([new[i] == ph[i] + inc for i in range(2)]), nonlinear=True)
     control(ck, "control.phase.increment_without_2pi", pre, conj([z3.Or(new[i] == ph[i] + f * dt, new[i] == ph[i] + f * dt - 2 * PI) for i in range(2)]), nonlinear=True)
 
+    # ---- bit-precise (float32) range of the wrapped phase (thorough tier): fmod is exact in IEEE arithmetic, the additions round.  Two obligations:
+    # the computed increment 2*pi*f*dt lies in [0, pi32] for f in [0, 4] Hz at dt = 0.02 s (the G1 control step), and for EVERY increment in [0, pi32]
+    # and every float32 phase in [-pi32, pi32) the new phase is again in [-pi32, pi32) (the increment sub-term is abstracted by a fresh variable there:
+    # an over-approximation, so the second obligation does not depend on how the increment is computed)
+    if ck.thorough:
+        itb = Interp(mode="fp32")
+        Sb = tr.symbols(itb, given={"dt": itb.lift(np.asarray(0.02, np.float32), np.float32)})
+        nb = tr.run(itb, Sb)[tr.out_names[0]]
+        F32 = z3.Float32()
+        pi32 = z3.FPVal(float(np.float32(np.pi)), F32)
+        zero = z3.FPVal(0.0, F32)
+        phb, fb = Sb["phase"], Sb["f"][()]
+
+        def inc_of(t, x):
+            if z3.is_app(t):
+                if t.decl().kind() == z3.Z3_OP_FPA_ADD and any(c.get_id() == x.get_id() for c in t.children()):
+                    return [c for c in t.children()[1:] if c.get_id() != x.get_id()][0]
+                for c in t.children():
+                    r = inc_of(c, x)
+                    if r is not None:
+                        return r
+            return None
+        incs = [inc_of(nb[i], phb[i]) for i in range(2)]
+        ok_inc = all(x is not None for x in incs) and incs[0].get_id() == incs[1].get_id()
+        ck.fact("phase.fp32.increment_term_found", ok_inc, "the float32 term added to the phase is the same for both feet")
+        if ok_inc:
+            def rpb(res):
+                vals = [concrete.model_leaf(res, Sb[n], av, None) for n, av in zip(tr.in_names, tr.in_avals)]
+                real = np.asarray(concrete.run_real(tr, vals)[0], np.float32)
+                bad = bool(np.any(~((real >= -np.float32(np.pi)) & (real < np.float32(np.pi)))))
+                return bad, {"function": tr.label, "phase": np.asarray(vals[0], np.float64).tolist(), "f": float(vals[1]), "dt": float(vals[2]), "next_phase_float32": real.astype(np.float64).tolist()}
+            ck.prove("phase.fp32.increment_in_[0,pi]@f<=4Hz,dt=0.02", [z3.fpGEQ(fb, zero), z3.fpLEQ(fb, z3.FPVal(4.0, F32))], z3.And(z3.fpGEQ(incs[0], zero), z3.fpLEQ(incs[0], pi32)),
+                     replay=rpb, timeout=120)
+            v = z3.FP("phase_increment", F32)
+            na = z3.substitute(nb[0], (incs[0], v))
+            sec_, ck.second = ck.second, False      # /usr/bin/z3 4.8.12 does not decide the fp.rem query within 600 s: single-solver verdict (z3 5.1.0), stated in the evidence notes
+            ck.notes.append("phase.fp32.range_half_open: decided by z3 5.1.0 only (the second solver z3 4.8.12 times out on fp.rem)")
+            ck.prove("phase.fp32.range_half_open@any_increment_in_[0,pi]", [z3.fpGEQ(phb[0], z3.fpNeg(pi32)), z3.fpLT(phb[0], pi32), z3.fpGEQ(v, zero), z3.fpLEQ(v, pi32)],
+                     z3.And(z3.fpGEQ(na, z3.fpNeg(pi32)), z3.fpLT(na, pi32)), replay=rpb, timeout=600, sample=False)
+            ck.second = sec_
+            ck.mode = "REAL with the symbol PI (float32 multiples of pi identified with it); FP32 for phase.fp32.*"
+
     # ---- initial_gait_phase
     tri = trace(lambda: gait.initial_gait_phase(), argnames=[], label="g1.gait.initial_gait_phase")
     ck.encoded(tri)
@@ -563,7 +605,7 @@ def main():
     ck.bound(model="actual G1 model sizes (nbody 31, 29 actuated dofs, 27 contact pairs); ranges of the randomize_* functions symbolic with lo <= hi, nominal values symbolic >= 0; "
              "in initial() the ranges are the environment's configured (static) values", fmod_quotient=f"|x / (2 pi)| < {FMOD_K + 1} (proved as obligation phase.fmod_quotient_in_range)",
              frequency="0 <= gait_frequency, gait_frequency * dt <= 1/2", pi="3.14159 < PI < 3.14160 (symbol)")
-    ck.out("float32 rounding (in particular of fmod at the wrap point and of pi itself)", "negative gait frequencies and gait_frequency*dt > 1/2",
+    ck.out("float32 rounding other than in the wrapped gait phase (quick tier: all of it; thorough tier: phase.fp32.* decide the half-open range [-pi32, pi32) bit-precisely for increments up to pi32)", "negative gait frequencies and gait_frequency*dt > 1/2",
            "distribution (uniformity / independence) of the random draws", "what MJX computes in forward()/step() (uninterpreted)")
     tasks = {"locomotion": g1.G1Locomotion, "standing": g1.G1Standing, "standup": g1.G1Standup}
     envs = {}
